@@ -49,16 +49,25 @@ NmdOut3(fin, n, M, D, o) == Within3(fin * M, n * D, F(o), MN(o), MD(o), ExactDiv
 NmdSane(n, M, Ds) == /\ n >= 1 /\ n <= 1024 /\ M >= 1 /\ M <= 4096
                      /\ \A i \in 1..Len(Ds) : Ds[i] >= 1 /\ Ds[i] <= 8192
 
-NmdRanges3(d, r, n, M, Ds) ==
-  IF ~NmdSane(n, M, Ds) THEN 0
-  ELSE Min3({ B3(InIv(n, d.n)), B3(InRanges(M, <<d.m>>)),
-              Pfd3(d, r.fin, n),
-              Vco3(d, r.vm, r.fin, M, d.sc * n, ExactDiv(r.fin, n)) }
-            \cup { B3(InRanges(Ds[i], d.d[i])) : i \in 1..Len(Ds) })
+(* items: sets of <<name, three-valued verdict>>; a clause is the minimum of its items *)
+It3(items) == Min3({ it[2] : it \in items })
+Bad(items) == { it[1] : it \in { x \in items : x[2] = 0 } }
 
-NmdMeets3(d, r, n, M, Ds) ==
-  IF ~NmdSane(n, M, Ds) THEN 0
-  ELSE Min3({ NmdOut3(r.fin, n, M, Ds[i], r.outs[i]) : i \in 1..Len(Ds) })
+(* values outside these bounds cannot be evaluated in 32 bits; they are outside every declared range anyway *)
+NmdInsane(n, M, Ds) == { <<"insane:n", 0>> : x \in {1} \ (IF n >= 1 /\ n <= 1024 THEN {1} ELSE {}) }
+                       \cup { <<"insane:m", 0>> : x \in {1} \ (IF M >= 1 /\ M <= 4096 THEN {1} ELSE {}) }
+                       \cup { <<"insane:d" \o ToString(i), 0>> : i \in { j \in 1..Len(Ds) : ~(Ds[j] >= 1 /\ Ds[j] <= 8192) } }
+
+NmdRangesIt(d, r, n, M, Ds) ==
+  { <<"n", B3(InIv(n, d.n))>>, <<"m", B3(InRanges(M, <<d.m>>))>> }
+  \cup { <<"d" \o ToString(i), B3(InRanges(Ds[i], d.d[i]))>> : i \in 1..Len(Ds) }
+  \cup (IF NmdSane(n, M, Ds)
+        THEN { <<"pfd", Pfd3(d, r.fin, n)>>, <<"vco", Vco3(d, r.vm, r.fin, M, d.sc * n, ExactDiv(r.fin, n))>> }
+        ELSE {})
+
+NmdMeetsIt(d, r, n, M, Ds) ==
+  IF ~NmdSane(n, M, Ds) THEN NmdInsane(n, M, Ds)
+  ELSE { OutItem(i, r.fin * M, n * Ds[i], F(r.outs[i]), MN(r.outs[i]), MD(r.outs[i]), ExactDiv(r.fin, n)) : i \in 1..Len(Ds) }
 
 NmdMWin(d, r, n) ==
   { M \in Max2(d.m[1], VcoWinLo(d, r.vm, r.fin, d.sc * n)) .. VcoWinHi(d, r.vm, r.fin, d.sc * n, d.m[2] - 1) :
@@ -87,18 +96,24 @@ NmdWitness(d, r, lvl) ==
 Ecp5Sane(ci, fb, Ds, Dfb) == /\ ci >= 1 /\ ci <= 1024 /\ fb >= 1 /\ fb <= 1024 /\ Dfb >= 1 /\ Dfb <= 1024
                              /\ \A i \in 1..Len(Ds) : Ds[i] >= 1 /\ Ds[i] <= 8192
 
-Ecp5Ranges3(d, r, ci, fb, Ds, fbk, Dfb) ==
-  IF ~Ecp5Sane(ci, fb, Ds, Dfb) THEN 0
-  ELSE Min3({ B3(InIv(ci, d.ci)), B3(InIv(fb, d.fb)), B3(InIv(Dfb, d.co)),
-              B3(fbk >= 1 /\ fbk <= d.nmax /\ fbk <= NOut(r) + 1),
-              Pfd3(d, r.fin, ci),
-              Vco3(d, r.vm, r.fin, fb * Dfb, ci, ExactDiv(r.fin, ci)) }
-            \cup { B3(InIv(Ds[i], d.co)) : i \in 1..Len(Ds) })
+Ecp5Insane(ci, fb, Ds, Dfb) ==
+     { <<"insane:clki_div", 0>> : x \in {1} \ (IF ci >= 1 /\ ci <= 1024 THEN {1} ELSE {}) }
+  \cup { <<"insane:clkfb_div", 0>> : x \in {1} \ (IF fb >= 1 /\ fb <= 1024 THEN {1} ELSE {}) }
+  \cup { <<"insane:fbk_div", 0>> : x \in {1} \ (IF Dfb >= 1 /\ Dfb <= 1024 THEN {1} ELSE {}) }
+  \cup { <<"insane:d" \o ToString(i), 0>> : i \in { j \in 1..Len(Ds) : ~(Ds[j] >= 1 /\ Ds[j] <= 8192) } }
 
-Ecp5Meets3(d, r, ci, fb, Ds, Dfb) ==
-  IF ~Ecp5Sane(ci, fb, Ds, Dfb) THEN 0
-  ELSE Min3({ Within3(r.fin * fb * Dfb, ci * Ds[i], F(r.outs[i]), MN(r.outs[i]), MD(r.outs[i]), ExactDiv(r.fin, ci))
-              : i \in 1..Len(Ds) })
+Ecp5RangesIt(d, r, ci, fb, Ds, fbk, Dfb) ==
+  { <<"clki_div", B3(InIv(ci, d.ci))>>, <<"clkfb_div", B3(InIv(fb, d.fb))>>, <<"fbk_div", B3(InIv(Dfb, d.co))>>,
+    <<"fbk_index", B3(fbk >= 1 /\ fbk <= d.nmax /\ fbk <= NOut(r) + 1)>> }
+  \cup { <<"d" \o ToString(i), B3(InIv(Ds[i], d.co))>> : i \in 1..Len(Ds) }
+  \cup (IF Ecp5Sane(ci, fb, Ds, Dfb)
+        THEN { <<"pfd", Pfd3(d, r.fin, ci)>>, <<"vco", Vco3(d, r.vm, r.fin, fb * Dfb, ci, ExactDiv(r.fin, ci))>> }
+        ELSE {})
+
+Ecp5MeetsIt(d, r, ci, fb, Ds, Dfb) ==
+  IF ~Ecp5Sane(ci, fb, Ds, Dfb) THEN Ecp5Insane(ci, fb, Ds, Dfb)
+  ELSE { OutItem(i, r.fin * fb * Dfb, ci * Ds[i], F(r.outs[i]), MN(r.outs[i]), MD(r.outs[i]), ExactDiv(r.fin, ci))
+         : i \in 1..Len(Ds) }
 
 Ecp5OkD(d, r, ci, K, i, D, lvl) ==
   /\ InIv(D, d.co)
@@ -131,4 +146,131 @@ Ecp5Witness(d, r, lvl) ==
       Dfb == IF fbs # {} THEN fbsel[2] ELSE CHOOSE D \in d.co[1]..d.co[2] : K % D = 0 /\ InIv(K \div D, d.fb)
   IN [ci |-> ci, fb |-> K \div Dfb, d |-> Ds, fbk |-> IF fbs # {} THEN fbsel[1] ELSE NOut(r) + 1, dfb |-> Dfb,
       fbks |-> { x[1] : x \in fbs }]
+
+(* -------------------------------------------------------------------- gw5a *)
+(* Gowin GW5A PLLA/PLL: PFD = fin/idiv, VCO = PFD*fdiv*mdiv, out_i = VCO/odiv_i *)
+Gw5Sane(idiv, fdiv, mdiv, Os) == /\ idiv >= 1 /\ idiv <= 128 /\ fdiv >= 1 /\ mdiv >= 1 /\ fdiv <= 1024 /\ mdiv <= 1024
+                                 /\ fdiv * mdiv <= 16000
+                                 /\ \A i \in 1..Len(Os) : Os[i] >= 1 /\ Os[i] <= 8192
+Gw5RangesIt(d, r, idiv, fdiv, mdiv, Os) ==
+  { <<"idiv", B3(InIv(idiv, d.idiv))>>, <<"fdiv", B3(InIv(fdiv, d.fdiv))>>, <<"mdiv", B3(InIv(mdiv, d.mdiv))>> }
+  \cup { <<"odiv" \o ToString(i - 1), B3(InIv(Os[i], d.odiv))>> : i \in 1..Len(Os) }
+  \cup (IF Gw5Sane(idiv, fdiv, mdiv, Os)
+        THEN { <<"pfd", Pfd3(d, r.fin, idiv)>>, <<"vco", Vco3(d, r.vm, r.fin, fdiv * mdiv, idiv, ExactDiv(r.fin, idiv))>> }
+        ELSE {})
+Gw5MeetsIt(d, r, idiv, fdiv, mdiv, Os) ==
+  IF ~Gw5Sane(idiv, fdiv, mdiv, Os) THEN { <<"insane", 0>> }
+  ELSE { OutItem(i, r.fin * fdiv * mdiv, idiv * Os[i], F(r.outs[i]), MN(r.outs[i]), MD(r.outs[i]), ExactDiv(r.fin, idiv))
+         : i \in 1..Len(Os) }
+Gw5OkO(d, r, idiv, A, i, O, lvl) ==
+  InIv(O, d.odiv) /\ Within3(r.fin * A, idiv * O, F(r.outs[i]), MN(r.outs[i]), MD(r.outs[i]), ExactDiv(r.fin, idiv)) >= lvl
+Gw5OkFM(d, r, idiv, fdiv, mdiv, lvl) ==
+  /\ Vco3(d, r.vm, r.fin, fdiv * mdiv, idiv, ExactDiv(r.fin, idiv)) >= lvl
+  /\ \A i \in 1..NOut(r) : \E O \in DivWin(r.fin * fdiv * mdiv, idiv, r.outs[i]) : Gw5OkO(d, r, idiv, fdiv * mdiv, i, O, lvl)
+Gw5MWin(d, r, idiv, fdiv) ==
+  Max2(d.mdiv[1], VcoWinLo(d, r.vm, r.fin * fdiv, idiv)) .. VcoWinHi(d, r.vm, r.fin * fdiv, idiv, d.mdiv[2])
+Gw5OkI(d, r, idiv, lvl) ==
+  /\ Pfd3(d, r.fin, idiv) >= lvl
+  /\ \E fdiv \in d.fdiv[1]..d.fdiv[2] : \E mdiv \in Gw5MWin(d, r, idiv, fdiv) : Gw5OkFM(d, r, idiv, fdiv, mdiv, lvl)
+Gw5Feas(d, r, lvl) == \E idiv \in d.idiv[1]..d.idiv[2] : Gw5OkI(d, r, idiv, lvl)
+Gw5Witness(d, r, lvl) ==
+  LET idiv == CHOOSE i \in d.idiv[1]..d.idiv[2] : Gw5OkI(d, r, i, lvl)
+      fm   == CHOOSE fm \in { x \in (d.fdiv[1]..d.fdiv[2]) \X (d.mdiv[1]..d.mdiv[2]) : x[2] \in Gw5MWin(d, r, idiv, x[1]) } :
+                 Gw5OkFM(d, r, idiv, fm[1], fm[2], lvl)
+  IN [idiv |-> idiv, fdiv |-> fm[1], mdiv |-> fm[2],
+      odiv |-> [i \in 1..NOut(r) |-> CHOOSE O \in DivWin(r.fin * fm[1] * fm[2], idiv, r.outs[i]) :
+                                        Gw5OkO(d, r, idiv, fm[1] * fm[2], i, O, lvl)]]
+
+(* -------------------------------------------------------------------- gw1n *)
+(* Gowin rPLL/PLLVR: PFD = fin/idiv, CLKOUT = PFD*fdiv, VCO = CLKOUT*odiv;             *)
+(* ports: CLKOUT (/1), CLKOUTP (/1, phase shifted), CLKOUTD (/sdiv, sdiv even), CLKOUTD3 (/3) *)
+(* ports[i] = divisor of the port requested output i is wired to (0: not wired)        *)
+Gw1Sane(idiv, fdiv, odiv, Dv) == /\ idiv >= 1 /\ idiv <= 128 /\ fdiv >= 1 /\ fdiv <= 128 /\ odiv >= 1 /\ odiv <= 128
+                                 /\ \A i \in 1..Len(Dv) : Dv[i] >= 0 /\ Dv[i] <= 1024
+Gw1RangesIt(d, r, idiv, fdiv, odiv, sdiv, usesD) ==
+  { <<"idiv", B3(InIv(idiv, d.idiv))>>, <<"fdiv", B3(InIv(fdiv, d.fdiv))>>,
+    <<"odiv", B3(\E k \in 1..Len(d.odiv) : d.odiv[k] = odiv)>>,
+    <<"sdiv", B3(~usesD \/ (InIv(sdiv, d.sdiv) /\ sdiv % 2 = 0))>> }
+  \cup (IF Gw1Sane(idiv, fdiv, odiv, <<>>)
+        THEN { <<"pfd", Pfd3(d, r.fin, idiv)>>, <<"vco", Vco3(d, r.vm, r.fin, fdiv * odiv, idiv, ExactDiv(r.fin, idiv))>> }
+        ELSE {})
+Gw1MeetsIt(d, r, idiv, fdiv, odiv, Dv) ==
+  IF ~Gw1Sane(idiv, fdiv, odiv, Dv) THEN { <<"insane", 0>> }
+  ELSE { IF Dv[i] = 0 THEN <<"out" \o ToString(i) \o ":not_driven", 0>>   \* no output of the primitive drives this clock
+         ELSE OutItem(i, r.fin * fdiv, idiv * Dv[i], F(r.outs[i]), MN(r.outs[i]), MD(r.outs[i]), ExactDiv(r.fin, idiv))
+         : i \in 1..Len(Dv) }
+(* search (all phases 0): one output per port CLKOUT, CLKOUTD3, CLKOUTD *)
+Gw1OkDiv(d, r, idiv, fdiv, i, dv, lvl) ==
+  Within3(r.fin * fdiv, idiv * dv, F(r.outs[i]), MN(r.outs[i]), MD(r.outs[i]), ExactDiv(r.fin, idiv)) >= lvl
+Gw1SCands(d, r, idiv, fdiv) ==
+  { s \in UNION { DivWin(r.fin * fdiv, idiv, r.outs[i]) : i \in 1..NOut(r) } : s % 2 = 0 /\ InIv(s, d.sdiv) } \cup {2}
+(* direct = TRUE: additionally every output of the highest requested frequency sits on CLKOUT (/1);  *)
+(* only used to describe a refused request (the real solver ties CLKOUT to that frequency)          *)
+FMax(r) == CHOOSE f \in { F(r.outs[i]) : i \in 1..NOut(r) } : \A i \in 1..NOut(r) : F(r.outs[i]) <= f
+Gw1AOk(d, r, idiv, fdiv, a, lvl, direct) ==
+  /\ \A i, j \in 1..NOut(r) : i # j => a[i] # a[j]
+  /\ \A i \in 1..NOut(r) : Gw1OkDiv(d, r, idiv, fdiv, i, a[i], lvl)
+  /\ (direct => \A i \in 1..NOut(r) : F(r.outs[i]) = FMax(r) => a[i] = 1)
+Gw1Assign(d, r, idiv, fdiv, lvl, direct) ==
+  NOut(r) <= 3 /\
+  \E s \in Gw1SCands(d, r, idiv, fdiv) : \E a \in [1..NOut(r) -> {1, 3, s}] : Gw1AOk(d, r, idiv, fdiv, a, lvl, direct)
+Gw1OkIF(d, r, idiv, fdiv, lvl, direct) ==
+  /\ \E k \in 1..Len(d.odiv) : Vco3(d, r.vm, r.fin, fdiv * d.odiv[k], idiv, ExactDiv(r.fin, idiv)) >= lvl
+  /\ Gw1Assign(d, r, idiv, fdiv, lvl, direct)
+Gw1OkI(d, r, idiv, lvl, direct) ==
+  Pfd3(d, r.fin, idiv) >= lvl /\ \E fdiv \in d.fdiv[1]..d.fdiv[2] : Gw1OkIF(d, r, idiv, fdiv, lvl, direct)
+Gw1FeasD(d, r, lvl, direct) == \E idiv \in d.idiv[1]..d.idiv[2] : Gw1OkI(d, r, idiv, lvl, direct)
+Gw1Feas(d, r, lvl) == Gw1FeasD(d, r, lvl, FALSE)
+Gw1Witness(d, r, lvl) ==
+  LET direct == Gw1FeasD(d, r, lvl, TRUE)
+      idiv == CHOOSE i \in d.idiv[1]..d.idiv[2] : Gw1OkI(d, r, i, lvl, direct)
+      fdiv == CHOOSE f \in d.fdiv[1]..d.fdiv[2] : Gw1OkIF(d, r, idiv, f, lvl, direct)
+      k    == CHOOSE k \in 1..Len(d.odiv) : Vco3(d, r.vm, r.fin, fdiv * d.odiv[k], idiv, ExactDiv(r.fin, idiv)) >= lvl
+      s    == CHOOSE s \in Gw1SCands(d, r, idiv, fdiv) :
+                 \E a \in [1..NOut(r) -> {1, 3, s}] : Gw1AOk(d, r, idiv, fdiv, a, lvl, direct)
+      a    == CHOOSE a \in [1..NOut(r) -> {1, 3, s}] : Gw1AOk(d, r, idiv, fdiv, a, lvl, direct)
+  IN [idiv |-> idiv, fdiv |-> fdiv, odiv |-> d.odiv[k], sdiv |-> s, port_div |-> a, direct |-> direct]
+
+(* ------------------------------------------------------------------- trion *)
+(* Efinix Trion: PFD = fin/N, VCO = PFD*M*O*Cfbk, PLL = VCO/O, out_i = PLL/C_i; the      *)
+(* feedback output fb satisfies out_fb = PFD*M.  Exact match only (no margin).          *)
+TrCSet(d, ph) == IF ph = 0 THEN d.c[1]..d.c[2]
+                 ELSE IF ToString(ph) \in DOMAIN d.cph THEN { d.cph[ToString(ph)][k] : k \in 1..Len(d.cph[ToString(ph)]) }
+                 ELSE {}
+TrOSet(r) == IF NOut(r) > 1 THEN {2, 4, 8} ELSE {1, 2, 4, 8}
+TrSane(N, M, O, Cs) == /\ N >= 1 /\ N <= 64 /\ M >= 1 /\ M <= 1024 /\ O >= 1 /\ O <= 64
+                       /\ \A i \in 1..Len(Cs) : Cs[i] >= 1 /\ Cs[i] <= 1024
+TrRangesIt(d, r, N, M, O, Cs, fb) ==
+  { <<"N", B3(InIv(N, d.nn))>>, <<"M", B3(InIv(M, d.mm))>>, <<"O", B3(O \in TrOSet(r))>> }
+  \cup { <<"C" \o ToString(i - 1), B3(Cs[i] \in TrCSet(d, PH(r.outs[i])))>> : i \in 1..Len(Cs) }
+  \cup (IF TrSane(N, M, O, Cs) /\ fb >= 1 /\ fb <= Len(Cs)
+        THEN { <<"M*O*Cfbk", B3(M * O * Cs[fb] <= d.moc)>>,
+               <<"pfd", Pfd3(d, r.fin, N)>>,
+               <<"vco", Vco3(d, r.vm, r.fin, M * O * Cs[fb], N, ExactDiv(r.fin, N))>>,
+               <<"pll", Min3({ Leq3(d.pll[1] * N, r.fin * M * Cs[fb], ExactDiv(r.fin, N)),
+                               Leq3(r.fin * M * Cs[fb], d.pll[2] * N, ExactDiv(r.fin, N)) })>> }
+        ELSE { <<"insane", 0>> })
+TrMeetsIt(d, r, N, M, O, Cs, fb) ==
+  IF ~(TrSane(N, M, O, Cs) /\ fb >= 1 /\ fb <= Len(Cs)) THEN { <<"insane", 0>> }
+  ELSE { <<"out" \o ToString(i), Within3(r.fin * M * Cs[fb], N * Cs[i], F(r.outs[i]), 0, 1, ExactDiv(r.fin, N))>>
+         : i \in 1..Len(Cs) }
+TrOkC(d, r, N, M, O, cf, i, lvl) ==
+  \E C \in TrCSet(d, PH(r.outs[i])) : Within3(r.fin * M * cf, N * C, F(r.outs[i]), 0, 1, ExactDiv(r.fin, N)) >= lvl
+TrOkNM(d, r, N, M, fb, lvl) ==
+  \E O \in TrOSet(r) : \E cf \in TrCSet(d, PH(r.outs[fb])) :
+     /\ M * O * cf <= d.moc
+     /\ Vco3(d, r.vm, r.fin, M * O * cf, N, ExactDiv(r.fin, N)) >= lvl
+     /\ Leq3(d.pll[1] * N, r.fin * M * cf, ExactDiv(r.fin, N)) >= lvl
+     /\ Leq3(r.fin * M * cf, d.pll[2] * N, ExactDiv(r.fin, N)) >= lvl
+     /\ \A i \in 1..NOut(r) : IF i = fb THEN TRUE ELSE TrOkC(d, r, N, M, O, cf, i, lvl)
+TrOkN(d, r, N, fb, lvl) ==
+  /\ Pfd3(d, r.fin, N) >= lvl
+  /\ (F(r.outs[fb]) * N) % r.fin = 0                 \* out_fb = fin*M/N
+  /\ InIv((F(r.outs[fb]) * N) \div r.fin, d.mm)
+  /\ (lvl = 1 \/ ExactDiv(r.fin, N))
+  /\ TrOkNM(d, r, N, (F(r.outs[fb]) * N) \div r.fin, fb, lvl)
+TrFeas(d, r, lvl) == \E N \in d.nn[1]..d.nn[2] : TrOkN(d, r, N, r.fbk + 1, lvl)
+TrWitness(d, r, lvl) ==
+  LET N == CHOOSE N \in d.nn[1]..d.nn[2] : TrOkN(d, r, N, r.fbk + 1, lvl)
+  IN [N |-> N, M |-> (F(r.outs[r.fbk + 1]) * N) \div r.fin]
 =============================================================================
